@@ -41,6 +41,16 @@ def gen_cases():
         lines.append("end")
         cases.append(lines)
         i += 1
+    # a timer that is not the earliest is given a deadline before the earliest one (set_deadline + update) before it
+    # ever fired; after both timers have fired nothing is armed: the third dispatch must wait out its whole timeout
+    for timeout, timers in itertools.product(["120", "none"],
+                                             [["30", "60 moveto 10"], ["30", "200 moveto 5"], ["40", "20 moveto 70"], ["30", "60 moveto 10", "90"]]):
+        lines = ["case t%d" % i, "timeout " + timeout, "dispatches %d" % (len(timers) + 1)] + ["timer " + t for t in timers]
+        if timeout == "none":
+            lines.append("waker 150")
+        lines.append("end")
+        cases.append(lines)
+        i += 1
     return cases
 
 
@@ -76,11 +86,11 @@ def judge(case, trace):
         else:
             if el < eff - 1 * MS:
                 soft.append("dispatch %d: returned after %d ns although it should wait %d ns (spinning)" % (idx, el, eff))
-            if el > eff + 250 * MS and idx == 1:
+            if el > eff + 250 * MS and idx >= 1:
                 soft.append("dispatch %d: waited %d ns for a limit of %d ns (oversleeping)" % (idx, el, eff))
         # the second dispatch is quiescent (closed peers were consumed by the first): the limit, if it is a timer, fires
-        if idx == 1 and eff is not None and due is not None and user is not None and due <= user and d["fired"] == 0 and due > 0:
-            soft.append("dispatch 1: the earliest timer was the limit of the wait but did not fire")
+        if idx >= 1 and eff is not None and due is not None and user is not None and due <= user and d["fired"] == 0 and due > 0:
+            soft.append("dispatch %d: the earliest timer was the limit of the wait but did not fire" % idx)
     return hard, soft
 
 
